@@ -212,10 +212,12 @@ CHECKS["C05"] = {
     "assumptions": ["the sender's stored counter may be any value below 2^41 (set directly to reach varint boundaries cheaply)"],
     "units": [
         {"pkg": _SS, "run": "^TestVerif_C05_", Q: {"timeout": 600}, T: {"timeout": 3400, "shards": 12}},
+        {"pkg": _SS, "run": "^TestVerifCtl_C05_", "inst": ["pkg/secretstore/secret_store_messages.go"], Q: {"timeout": 600}, T: {"timeout": 3400, "shards": 8}},
         {"pkg": ".", "run": "^TestVerif_C05_", "shrinktime": "10s", Q: {"timeout": 900}, T: {"timeout": 3400, "shards": 12}},
     ],
     "mandatory_labels": {"all": ["crypto/kind=account", "crypto/kind=contact", "crypto/kind=multimember", "crypto/counter>=128", "crypto/messages-before-announcement",
-                                 "distribution/multimember", "distribution/activated-before-seeing-anyone", "distribution/second-device-after-secrets"]},
+                                 "distribution/multimember", "distribution/activated-before-seeing-anyone", "distribution/second-device-after-secrets",
+                                 "concurrent/dfs-schedules", "concurrent/first-use-of-the-chain-key"]},
 }
 
 CHECKS["C04"] = {
